@@ -4,6 +4,8 @@ import (
 	"encoding/json"
 	"flag"
 	"fmt"
+	"go/ast"
+	"go/types"
 	"os"
 	"os/exec"
 	"path/filepath"
@@ -150,4 +152,86 @@ func cmdSelftest(args []string) {
 		fmt.Printf("%d mutants not caught\n", missed)
 		os.Exit(1)
 	}
+}
+
+// cmdRenameLocals (robustness probe): writes a copy of the repository in which every variable declared by a function
+// under contract (parameters, named results, locals) is renamed (suffix "Rn"). Pure renames must leave every check quiet.
+func cmdRenameLocals(args []string) {
+	fs := flag.NewFlagSet("renamelocals", flag.ExitOnError)
+	repo := fs.String("repo", envOr("GFV_REPO", "/repo"), "repository")
+	vdir := fs.String("verif", envOr("GFV_VERIF", "/verif"), "verif dir")
+	out := fs.String("out", "", "directory to write the renamed copy to (must not exist)")
+	fs.Parse(args)
+	if *out == "" {
+		fmt.Fprintln(os.Stderr, "usage: gfverify renamelocals -out <dir>")
+		os.Exit(2)
+	}
+	g, err := loadAll(*repo, *vdir)
+	if err != nil {
+		fmt.Fprintln(os.Stderr, err)
+		os.Exit(2)
+	}
+	if err := copyTree(*repo, *out); err != nil {
+		fmt.Fprintln(os.Stderr, "copy failed:", err)
+		os.Exit(2)
+	}
+	os.RemoveAll(filepath.Join(*out, ".git"))
+	type edit struct{ off, n int }
+	edits := map[string][]edit{}
+	nfun, nid := 0, 0
+	for key := range g.cs.Funcs {
+		fi := g.funcs[key]
+		if fi == nil {
+			continue
+		}
+		objs := map[types.Object]bool{}
+		for _, o := range g.declList(fi) {
+			objs[o] = true
+		}
+		if len(objs) == 0 {
+			continue
+		}
+		nfun++
+		info := fi.Pkg.TypesInfo
+		var root ast.Node = fi.Decl
+		if fi.Decl == nil {
+			root = fi.Lit
+		}
+		ast.Inspect(root, func(n ast.Node) bool {
+			id, ok := n.(*ast.Ident)
+			if !ok {
+				return true
+			}
+			obj := info.Defs[id]
+			if obj == nil {
+				obj = info.Uses[id]
+			}
+			if obj != nil && objs[obj] {
+				p := g.fset.Position(id.Pos())
+				edits[p.Filename] = append(edits[p.Filename], edit{p.Offset, len(id.Name)})
+				nid++
+			}
+			return true
+		})
+	}
+	for file, es := range edits {
+		rel, _ := filepath.Rel(*repo, file)
+		dst := filepath.Join(*out, rel)
+		b, err := os.ReadFile(dst)
+		if err != nil {
+			fmt.Fprintln(os.Stderr, err)
+			os.Exit(2)
+		}
+		sort.Slice(es, func(i, j int) bool { return es[i].off > es[j].off })
+		seen := map[int]bool{}
+		for _, e := range es {
+			if seen[e.off] {
+				continue
+			}
+			seen[e.off] = true
+			b = append(b[:e.off+e.n], append([]byte("Rn"), b[e.off+e.n:]...)...)
+		}
+		os.WriteFile(dst, b, 0o644)
+	}
+	fmt.Printf("renamed %d identifiers in %d functions under contract; copy in %s\n", nid, nfun, *out)
 }
